@@ -64,7 +64,7 @@ fn functions() -> Vec<(F, usize, Cat)> {
          (F::Plus, 2, Num), (F::Minus, 2, Num), (F::Multiply, 2, Num), (F::Divide, 2, Num), (F::Modulo, 2, Num), (F::Gt, 2, Num), (F::Lt, 2, Num), (F::GtEq, 2, Num), (F::LtEq, 2, Num),
          (F::Eq, 2, Num), (F::NotEq, 2, Num), (F::Pow, 2, Num), (F::Least, 2, Num), (F::Greatest, 2, Num), (F::Round, 2, Num), (F::Trunc, 2, Num),
          (F::BitwiseOr, 2, Num), (F::BitwiseAnd, 2, Num), (F::BitwiseXor, 2, Num), (F::And, 2, Boo), (F::Or, 2, Boo), (F::Xor, 2, Boo),
-         (F::Gt, 2, Txt), (F::Lt, 2, Txt), (F::Eq, 2, Txt), (F::StringConcat, 2, Txt), (F::Rtrim, 2, Txt), (F::Ltrim, 2, Txt), (F::Like, 2, Txt), (F::Ilike, 2, Txt), (F::RegexpContains, 2, Txt),
+         (F::Gt, 2, Txt), (F::Lt, 2, Txt), (F::Eq, 2, Txt), (F::GtEq, 2, Txt), (F::LtEq, 2, Txt), (F::NotEq, 2, Txt), (F::StringConcat, 2, Txt), (F::Rtrim, 2, Txt), (F::Ltrim, 2, Txt), (F::Like, 2, Txt), (F::Ilike, 2, Txt), (F::RegexpContains, 2, Txt),
          (F::Coalesce, 2, Any2), (F::IsNull, 1, Any2), (F::Case, 3, Any2), (F::Substr, 2, Any2), (F::Position, 2, Txt)]
 }
 fn arg_ty(r: &mut Rng, c: Cat) -> Ty {
@@ -125,7 +125,7 @@ pub fn child(k: usize, outdir: &str, seed: u64, thorough: bool) -> serde_json::V
         let (f, n, c) = *r.pick(&fs);
         let tys: Vec<Ty> = if f == F::Case { vec![Ty::Bool(vec![false, true]), arg_ty(&mut r, Cat::Num), arg_ty(&mut r, Cat::Num)] }
             else if f == F::Substr { vec![arg_ty(&mut r, Cat::Txt), Ty::Int(vec![(0, 5)])] }
-            else if f == F::Pow { vec![arg_ty(&mut r, Cat::Num), Ty::Int(vec![(-3, 3)])] }
+            else if f == F::Pow { vec![arg_ty(&mut r, Cat::Num), if r.chance(1, 2) { Ty::Int(vec![(-3, 3)]) } else { let a = (r.range(-6, 4) as f64) / 2.0; Ty::Float(vec![(a, a + (r.range(1, 6) as f64) / 2.0)]) }] }
             else { (0..n).map(|_| arg_ty(&mut r, c)).collect() };
         let dts: Vec<DataType> = tys.iter().map(to_dt).collect();
         progress(outdir, &format!("function {:?} on {}", f, dts.iter().map(|d| d.to_string()).collect::<Vec<_>>().join(", ")));
@@ -137,7 +137,10 @@ pub fn child(k: usize, outdir: &str, seed: u64, thorough: bool) -> serde_json::V
             let y = match y { Ok(Some(v)) if v == Value::none() && !vs.iter().any(|a| *a == Value::none()) => Ok(None), other => other };
             st.evaluations += 1;
             let key = format!("{:?}|{}|{}", f, dts.iter().map(|d| d.to_string()).collect::<Vec<_>>().join(","), vs.iter().map(|v| v.to_string()).collect::<Vec<_>>().join(","));
-            let desc = |kind: &str, extra: serde_json::Value| json!({"kind":kind,"function":format!("{:?}", f),"all_arguments_null":vs.iter().all(|a| *a == Value::none()),"negative_zero":vs.iter().any(|a| matches!(a, Value::Float(x) if **x == 0.0)) && dts.iter().any(|d| d.to_string().contains("-0")),"ulp_close":extra.get("ulp_close").and_then(|b| b.as_bool()).unwrap_or(false),"types":dts.iter().map(|d| d.to_string()).collect::<Vec<_>>(),"arguments":vs.iter().map(|v| v.to_string()).collect::<Vec<_>>(),"detail":extra});
+            let desc = |kind: &str, extra: serde_json::Value| json!({"kind":kind,"function":format!("{:?}", f),"all_arguments_null":vs.iter().all(|a| *a == Value::none()),
+                "integer_value_float_range":extra.get("range").and_then(|x| x.as_str()).map(|x| x.starts_with("float") || x.starts_with("option(float")).unwrap_or(false) && extra.get("value").and_then(|x| x.as_str()).map(|x| x.parse::<i64>().is_ok()).unwrap_or(false) && vs.iter().any(|a| matches!(a, Value::Float(x) if x.fract() == 0.0)),
+                "some_argument_null":vs.iter().any(|a| *a == Value::none()) && !vs.iter().all(|a| *a == Value::none()),
+                "optional_and_plain_arguments":vs.iter().any(|a| matches!(a, Value::Optional(_))) && !vs.iter().all(|a| matches!(a, Value::Optional(_))),"negative_zero":vs.iter().any(|a| matches!(a, Value::Float(x) if **x == 0.0)) && (dts.iter().any(|d| d.to_string().contains("-0")) || vs.iter().any(|a| matches!(a, Value::Float(x) if **x == 0.0 && x.is_sign_negative()))),"ulp_close":extra.get("ulp_close").and_then(|b| b.as_bool()).unwrap_or(false),"types":dts.iter().map(|d| d.to_string()).collect::<Vec<_>>(),"arguments":vs.iter().map(|v| v.to_string()).collect::<Vec<_>>(),"detail":extra});
             match (&y, &img) {
                 (Err(_), _) => { st.bump("value_panicked"); }
                 (Ok(None), _) => { st.bump("value_not_defined"); }
